@@ -68,7 +68,7 @@ func C20(c *Ctx) {
 		for k := 0; k < nr; k++ {
 			ru := &arule{name: g.names[k], expr: g.expr(1 + rng.Intn(4))}
 			if rng.Intn(3) == 0 {
-				ru.display = []string{"friendly name", "q\"uote", "tab\there", "ünï"}[rng.Intn(4)]
+				ru.display = []string{"friendly name", "q\"uote", "tab\there", "ünï", "100% %d"}[rng.Intn(5)]
 			}
 			walkA(ru.expr, func(*anode) { nodes++ })
 			rules = append(rules, ru)
